@@ -207,6 +207,8 @@ def E.norm (ienv : List Itv) : E → Option (Itv × NE)
       else some (⟨0, 2 ^ w - 1, min (ia.tz + k) w⟩, NE.mod2 (NE.mul na (NE.c (2 ^ k))) w)
   | .band a b => do
       let (ia, na) ← a.norm ienv; let (ib, nb) ← b.norm ienv
+      if ia.hi < 2 ^ ib.tz ∨ ib.hi < 2 ^ ia.tz then some (⟨0, 0, 200⟩, NE.c 0)
+      else
       match (if ib.lo = ib.hi then isMask ib.hi else none) with
       | some k =>
           if ia.hi < 2 ^ k then some (ia, na)
